@@ -99,7 +99,7 @@ def annotation(t, style=0):
     if t.startswith("Qint"):
         return f"Qint[{t[4:]}]" if style != 2 else t
     i, f = fixed_if(t)
-    return f"Qfixed[{i}, {f}]" if style != 2 else t
+    return f"Qfixed[{i}, {f}]"
 
 
 def from_real_type(rt):
